@@ -9,11 +9,13 @@
    float, double on gcc/x86-64); what is specific to constred.c is which field of the union
    is read and which C type the expression has.
 
-   FAITHFUL to the tree:
-     DEFECT expr_div_constred / expr_mod_constred, arms with an EXPR_ENUMTYPE operand: the
-            index is divided with the raw C operator, so an enumerator equal to INT_MIN
-            divided by -1 is a SIGFPE inside the compiler -> FCrash.  (The int x int and
-            long x long arms use (b == -1) ? -a : a / b like the VM.) *)
+   / and %: every arm of expr_div_constred / expr_mod_constred — int x int, long x long and
+   (since /repo 355bd8f) the three arms with an EXPR_ENUMTYPE operand — rejects a zero
+   divisor ("division by zero") and computes  (b == -1) ? -a : a / b  resp.
+   (b == -1) ? 0 : a % b  like the VM handlers: no arm goes through the raw C division any
+   more, so the reducer cannot trap (ConstredProofs.fold_never_crashes).  LSig / FCrash stay
+   in the result types: they are what the correspondence run would have to report if the
+   real reducer died. *)
 From Coq Require Import ZArith Bool.
 From NV Require Import Arith.NumTy Arith.Bits Arith.IntOps Arith.FloatOps Arith.Promote.
 Local Open Scope Z_scope.
@@ -75,15 +77,15 @@ Definition red_arith (o : binop) (a b : lit) : lres :=
       | _ => LKeep
       end
   | _, _ =>
-      (* the three arms with an enum operand: raw C arithmetic on the index *)
+      (* the three arms with an enum operand: the same C arithmetic on the index *)
       match both_int a b with
       | Some (x, y) =>
           match o with
           | Add => LR (LInt (iadd 32 x y))
           | Sub => LR (LInt (isub 32 x y))
           | Mul => LR (LInt (imul 32 x y))
-          | Div => of_ires32 (cdiv 32 x y)
-          | Mod => of_ires32 (cmod 32 x y)
+          | Div => of_ires32 (idiv 32 x y)
+          | Mod => of_ires32 (imod 32 x y)
           | _ => LKeep
           end
       | None => LKeep
@@ -264,21 +266,6 @@ Fixpoint fold (e : expr) : fres :=
 
 Definition ty_is (e : expr) (t : ty) : bool :=
   match ty_of e with Some t' => ty_eqb t t' | None => false end.
-
-(* no / or % has an enum operand (the reducer arms that still use the raw, trapping C
-   division) *)
-Fixpoint no_enum_div (e : expr) : bool :=
-  match e with
-  | ELit _ => true
-  | EUn _ a | EConv _ a | ESup a => no_enum_div a
-  | EBin o a b =>
-      no_enum_div a && no_enum_div b &&
-      negb (match o with
-            | Div | Mod => ty_is a TEnum || ty_is b TEnum
-            | _ => false
-            end)
-  | ECond c a b => no_enum_div c && no_enum_div a && no_enum_div b
-  end.
 
 (* every node is one the reducer evaluates eagerly when its children are literals: no
    short-circuit operator, no ?:, no enum operand under a bit operator or ~~~ *)
